@@ -42,6 +42,12 @@ class Sink(io.TextIOWrapper):
 
 @contextlib.contextmanager
 def stdout_as(encoding="utf-8"):
+    if encoding is None:          # keep the process's real stdout (subprocess configurations)
+        class _N:
+            def text(self):
+                return ""
+        yield _N()
+        return
     old = sys.stdout
     s = Sink(encoding)
     sys.stdout = s
